@@ -397,7 +397,11 @@ class Model:
             if cs.kind == "unresolved":
                 self.unresolved.append(cs)
             if cs.kind == "builtin" and cs.name in PRECONDITION_BREAKERS:
-                self.precondition_lost.append((fi.qual, n, cs.name))
+                # getattr / setattr / hasattr / delattr with a literal attribute name is an ordinary attribute access
+                literal = cs.name in ("getattr", "setattr", "delattr") and len(n.args) >= 2 and isinstance(n.args[1], ast.Constant) \
+                    and isinstance(n.args[1].value, str)
+                if not literal:
+                    self.precondition_lost.append((fi.qual, n, cs.name))
         return out
 
     def resolve_call(self, n: ast.Call, fi: FuncInfo, locs: Set[str], lt: Dict[str, Set[str]]) -> CallSite:
